@@ -15,7 +15,8 @@ REQUIRED_FLAGS = ["insertion_order_reverse", "insertion_order_ons_first", "after
                   "same_pitch_two_channels", "shorter_than_smallest_value", "non_note_event"]
 
 DEFAULT = [24, 12, 6, 16, 8, 4, 36, 18, 9]
-VALUE_LISTS = [[4], [4, 8], [8, 4], [3, 6, 12], [6], None, [8, 4, 12, 8, 4]]      # the last one names values twice
+VALUE_LISTS = [[4], [4, 8], [8, 4], [3, 6, 12], [6], None, [8, 4, 12, 8, 4],      # the last one names values twice
+               [96, 48, 24, 12], [7, 50, 100, 20]]                                  # values far above the default maximum
 PITCH_VARIANTS = [60, 21, 107, 64]
 CHAN_VARIANTS = [(0, 1), (2, 9), (0, 15)]
 
@@ -30,7 +31,8 @@ def context(tier, seed):
 
 
 def _lens(vals):
-    return list(range(1, 14)) + ([16, 20, 24, 30, 36, 40] if vals is None else [])
+    return list(range(1, 14)) + ([16, 20, 24, 30, 36, 40] if vals is None else []) + \
+        ([20, 45, 47, 48, 49, 60, 74, 75, 90, 97, 110] if vals and max(vals) > 40 else [])
 
 
 def units(ctx):
